@@ -154,22 +154,24 @@ class Xunitary(Compiler):
 
         # merge S2gates
         if len(regrefs) > half_n_modes:
-            for mode, indices in list_duplicates(regrefs):
-                r = 0
-                phi = 0
-
-                for k, i in enumerate(sorted(indices, reverse=True)):
-                    removed_cmd = B.pop(i)
-                    r += removed_cmd.op.p[0]
-                    phi_new = removed_cmd.op.p[1]
-
-                    if k > 0 and phi_new != phi:
+            # Rebuild the list, one gate per mode pair at the position of its first occurrence
+            # (removing the gates group by group with precomputed indices goes wrong as soon as
+            # two different pairs carry repeated S2gates, since every removal shifts the indices).
+            merged = {}
+            for cmd in B:
+                mode = (cmd.reg[0].ind, cmd.reg[1].ind)
+                if mode in merged:
+                    r, phi = merged[mode]
+                    if cmd.op.p[1] != phi:
                         raise CircuitError("Cannot merge S2gates with different phase values.")
+                    merged[mode] = (r + cmd.op.p[0], phi)
+                else:
+                    merged[mode] = (cmd.op.p[0], cmd.op.p[1])
 
-                    phi = phi_new
-
-                i, j = mode
-                B.insert(indices[0], Command(ops.S2gate(r, phi), [registers[i], registers[j]]))
+            B = [
+                Command(ops.S2gate(r, phi), [registers[i], registers[j]])
+                for (i, j), (r, phi) in merged.items()
+            ]
 
         meas_seq = [C[-1]]
         seq = GaussianUnitary().compile(C[:-1], registers)
